@@ -42,7 +42,7 @@ func (o crashOp) String() string {
 		return fmt.Sprintf("%s(%q, %d docs)", o.Kind, o.Coll, len(o.Docs))
 	case "UpdateById", "DeleteById", "ReplaceById":
 		return fmt.Sprintf("%s(%q, %s, %s=%d)", o.Kind, o.Coll, short(o.ID), o.Field, o.Val)
-	case "Update", "UpdateFunc", "Delete":
+	case "Update", "UpdateFunc", "Delete", "UpdatePanic":
 		return fmt.Sprintf("%s(%q where a>=%d, %s=%d, sorted=%v)", o.Kind, o.Coll, o.Pivot, o.Field, o.Val, o.Sort)
 	case "CreateIndex", "DropIndex":
 		return fmt.Sprintf("%s(%q,%q)", o.Kind, o.Coll, o.Field)
@@ -160,6 +160,18 @@ func applyCrashOp(m *model.DB, o crashOp) string {
 			mc.Docs[id][o.Field] = o.Val
 		}
 		return OK
+	case "UpdatePanic": // the updater panics at the second document it is given; the caller recovers: nothing may have changed
+		if mc == nil {
+			return ECollNo
+		}
+		ids := sel()
+		if len(ids) >= 2 {
+			return EPanic
+		}
+		for _, id := range ids {
+			mc.Docs[id][o.Field] = o.Val
+		}
+		return OK
 	case "Delete":
 		if mc == nil {
 			return ECollNo
@@ -246,7 +258,9 @@ func crashHistory(seed uint64) []crashOp {
 	}
 	for i := 0; i < nops; i++ {
 		c := existing()
-		switch r.Weighted([]int{4, 4, 6, 3, 14, 10, 4, 6, 8, 6, 5, 3, 3, 3}) {
+		switch r.Weighted([]int{4, 4, 6, 3, 14, 10, 4, 6, 8, 6, 5, 3, 3, 3, 3}) {
+		case 14:
+			add(crashOp{Kind: "UpdatePanic", Coll: c, Pivot: int64(r.Range(0, 6)), Field: gen.Pick(r, []string{"a", "b", "z"}), Val: int64(r.Range(10, 19)), Sort: r.P(30)})
 		case 13:
 			// an import that fails after it started, then operations on the name it did not create
 			name := gen.Pick(r, []string{"d1", "d2"})
@@ -356,6 +370,19 @@ func execCrashOp(db *clover.DB, o crashOp, dir string) error {
 		return db.UpdateFunc(q(), func(d *document.Document) *document.Document {
 			d.Set(o.Field, o.Val)
 			return d
+		})
+	case "UpdatePanic":
+		calls := 0
+		return Do(func() error {
+			return db.UpdateFunc(q(), func(d *document.Document) *document.Document {
+				calls++
+				if calls == 2 {
+					panic("updater failed")
+				}
+				n := d.Copy()
+				n.Set(o.Field, o.Val)
+				return n
+			})
 		})
 	case "Delete":
 		return db.Delete(q())
